@@ -52,6 +52,7 @@ type frameSet struct {
 }
 
 type Path struct {
+	trTouched bool // some instruction on this path wrote the ghost trace
 	frames   []*Frame
 	H, H0    string
 	ctx      []string
@@ -1392,6 +1393,8 @@ func (x *Exec) loopEdge(p *Path, li *loopInfo, from *ssa.BasicBlock, phis []*ssa
 		p.assume(fmt.Sprintf("(>= (next %s) (next %s))", hb, p.H))
 		if !x.loopHasCallbacks(li) {
 			p.assume(fmt.Sprintf("(and (= (TrLen %s) (TrLen %s)) (= (TrA %s) (TrA %s)) (= (TrB %s) (TrB %s)))", hb, p.H, hb, p.H, hb, p.H))
+		} else {
+			p.trTouched = true
 		}
 		p.H = hb
 		p.assume(fmt.Sprintf("(wf %s)", hb))
@@ -1552,7 +1555,11 @@ func (x *Exec) exitNormal(p *Path, results []SV, in ssa.Instruction) {
 		}
 		x.oblig(p, "ensures/"+en.Label, s, en.Props, x.pos(in))
 	}
-	if !ct.Flags["callbacks"] && !ct.Flags["pure"] {
+	if !ct.Flags["callbacks"] && !ct.Flags["pure"] && !p.trTouched {
+		// no instruction on this path wrote the ghost trace (no callback invocation, no un-popped entries of a
+		// callee, loops without callbacks keep it by construction): discharged structurally
+		x.oblig(p, "exit/trace-unchanged", "true", ct.Props, x.pos(in))
+	} else if !ct.Flags["callbacks"] && !ct.Flags["pure"] {
 		x.oblig(p, "exit/trace-unchanged", fmt.Sprintf("(and (= (TrLen %s) (TrLen %s)) (= (TrA %s) (TrA %s)) (= (TrB %s) (TrB %s)))", p.H, p.H0, p.H, p.H0, p.H, p.H0), ct.Props, x.pos(in))
 	}
 	if ct.Flags["pure"] {
@@ -1653,7 +1660,18 @@ func freshOwn(Ha, Hb string) string {
 
 // loopHasCallbacks: does the loop body call an unknown function value or a contract that may do so?
 func (x *Exec) loopHasCallbacks(li *loopInfo) bool {
+	var blocks []*ssa.BasicBlock
 	for b := range li.body {
+		blocks = append(blocks, b)
+	}
+	return x.blocksMayCallBack(blocks, map[*ssa.Function]bool{})
+}
+
+// blocksMayCallBack: may executing these blocks write the ghost trace (invoke a function value, or call a
+// `callbacks` contract that is not popped)? Contract-less in-package callees are inlined by the executor, so
+// their bodies are inspected recursively.
+func (x *Exec) blocksMayCallBack(blocks []*ssa.BasicBlock, seen map[*ssa.Function]bool) bool {
+	for _, b := range blocks {
 		for _, in := range b.Instrs {
 			ci, ok := in.(ssa.CallInstruction)
 			if !ok {
@@ -1676,7 +1694,13 @@ func (x *Exec) loopHasCallbacks(li *loopInfo) bool {
 					switch fnKey(callee) {
 					case "newString", "newBool", "newInt", "newFloat", "newNil":
 					default:
-						return true
+						if seen[callee] {
+							continue
+						}
+						seen[callee] = true
+						if callee.Blocks == nil || x.blocksMayCallBack(callee.Blocks, seen) {
+							return true
+						}
 					}
 				}
 			}
